@@ -384,6 +384,9 @@ func c19Awkward(rng *rand.Rand, kind string) string {
 		forms := []string{"@tag valid:required", "@tag :\"x\"", "@tag valid:\"", "@tag", "@tag valid:\"a\" @tag json:\"b\"", "@tagvalid:\"x\"", "@tag  "}
 		return base + "type A struct {\n\tName string `json:\"name\"` // " + forms[rng.Intn(len(forms))] + "\n\tAge int32 `json:\"age\"` // @tag valid:\"ge=0\"\n}\n\n" + good
 	case "grouped":
+		if rng.Intn(3) == 0 {
+			return base + "type ()\n\nvar ()\n\nconst ()\n\n" + good // empty groups are valid Go
+		}
 		return base + "type (\n\tA struct {\n\t\tName string `json:\"name\"` // @tag valid:\"required\"\n\t}\n\tB struct {\n\t\tAge int `json:\"age\"` // @tag valid:\"ge=0\"\n\t}\n)\n\nfunc f() {\n\ttype local struct {\n\t\tX int `json:\"x\"` // @tag valid:\"required\"\n\t}\n\t_ = local{}\n}\n\ntype Al = Inner\n\ntype G[T any] struct {\n\tV T `json:\"v\"` // @tag valid:\"required\"\n}\n\n" + good
 	case "backquote-value":
 		v := []string{"a`b", "`", "re='^`+$'", "x` json:`"}[rng.Intn(4)]
